@@ -1375,6 +1375,11 @@ func (c *Ctx) genC01() {
 		}
 	}
 	c.xswStateful()
+	cr := 250
+	if !c.quick() {
+		cr = 4000
+	}
+	c.concurrentParses(cr)
 	// the artifact binding: the same scripts inside ArtifactResponse / SOAP envelope
 	na := 300
 	if !c.quick() {
